@@ -11,9 +11,141 @@ const decision = false
 
 type (
 	Locker    = sync.Locker
-	Map       = sync.Map
 	WaitGroup = sync.WaitGroup
 )
+
+// Map replaces sync.Map with a deterministic model (the real one iterates in the runtime's randomised map order,
+// a source of nondeterminism the explorer would not own). Entries are kept in insertion order; every method is one
+// atomic step and a scheduling point; Range walks a snapshot of the keys taken at its start and visits a key if it is
+// still present when its turn comes, with the value it has then, yielding between visits. That is one of the
+// behaviours sync.Map allows: no key is visited twice, a key present throughout is visited, concurrent stores and
+// deletes may or may not be seen.
+type Map struct {
+	mu   sync.Mutex
+	keys []any
+	vals map[any]any
+}
+
+func (m *Map) step(op string) {
+	if vsched.On() {
+		vsched.Wait(decision, op, nil)
+	}
+}
+
+func (m *Map) Load(key any) (any, bool) {
+	m.step("map.load")
+	m.mu.Lock()
+	defer m.mu.Unlock()
+	v, ok := m.vals[key]
+	return v, ok
+}
+
+func (m *Map) put(key, value any) {
+	if m.vals == nil {
+		m.vals = map[any]any{}
+	}
+	if _, ok := m.vals[key]; !ok {
+		m.keys = append(m.keys, key)
+	}
+	m.vals[key] = value
+}
+
+func (m *Map) del(key any) {
+	delete(m.vals, key)
+	for i, k := range m.keys {
+		if k == key {
+			m.keys = append(m.keys[:i:i], m.keys[i+1:]...)
+			return
+		}
+	}
+}
+
+func (m *Map) Store(key, value any) {
+	m.step("map.store")
+	m.mu.Lock()
+	defer m.mu.Unlock()
+	m.put(key, value)
+}
+
+func (m *Map) LoadOrStore(key, value any) (any, bool) {
+	m.step("map.loadorstore")
+	m.mu.Lock()
+	defer m.mu.Unlock()
+	if v, ok := m.vals[key]; ok {
+		return v, true
+	}
+	m.put(key, value)
+	return value, false
+}
+
+func (m *Map) LoadAndDelete(key any) (any, bool) {
+	m.step("map.loadanddelete")
+	m.mu.Lock()
+	defer m.mu.Unlock()
+	v, ok := m.vals[key]
+	if ok {
+		m.del(key)
+	}
+	return v, ok
+}
+
+func (m *Map) Delete(key any) { m.LoadAndDelete(key) }
+
+func (m *Map) Swap(key, value any) (any, bool) {
+	m.step("map.swap")
+	m.mu.Lock()
+	defer m.mu.Unlock()
+	v, ok := m.vals[key]
+	m.put(key, value)
+	return v, ok
+}
+
+func (m *Map) CompareAndSwap(key, old, new any) bool {
+	m.step("map.cas")
+	m.mu.Lock()
+	defer m.mu.Unlock()
+	if v, ok := m.vals[key]; ok && v == old {
+		m.vals[key] = new
+		return true
+	}
+	return false
+}
+
+func (m *Map) CompareAndDelete(key, old any) bool {
+	m.step("map.cad")
+	m.mu.Lock()
+	defer m.mu.Unlock()
+	if v, ok := m.vals[key]; ok && v == old {
+		m.del(key)
+		return true
+	}
+	return false
+}
+
+func (m *Map) Clear() {
+	m.step("map.clear")
+	m.mu.Lock()
+	defer m.mu.Unlock()
+	m.keys, m.vals = nil, nil
+}
+
+func (m *Map) Range(f func(key, value any) bool) {
+	m.step("map.range")
+	m.mu.Lock()
+	keys := append([]any(nil), m.keys...)
+	m.mu.Unlock()
+	for i, k := range keys {
+		if i > 0 {
+			m.step("map.range.next")
+		}
+		m.mu.Lock()
+		v, ok := m.vals[k]
+		m.mu.Unlock()
+		if ok && !f(k, v) {
+			return
+		}
+	}
+}
 
 type Once struct {
 	done bool
